@@ -57,7 +57,6 @@ SEM_TIERS = {
               dict(root="R", alphabet="aTiny", maxlen=3, pims="cPimsR"),
               dict(root="N", alphabet="aNeg", maxlen=2, pims="cPimsN")],
     "thorough": [dict(root="R", alphabet="aFull", maxlen=2, pims="cPimsR"),
-                 dict(root="R", alphabet="aValid", maxlen=3, pims="cPimsR"),
                  dict(root="R", alphabet="aCore", maxlen=3, pims="cPimsR"),
                  dict(root="R", alphabet="aSmall", maxlen=4, pims="cPimsR"),
                  dict(root="N", alphabet="aNeg", maxlen=3, pims="cPimsN")],
@@ -199,7 +198,7 @@ class Sem:
                 feat = "other"
                 if root == "N":
                     feat = "negative-field-id"
-                V({"kind": "panic", "stage": o["stage"].split("#")[0], "feature": feat},
+                V({"kind": "panic", "stage": stage_class(o["stage"]), "feature": feat},
                   {"panic": first, "stage": o["stage"]}, "no panic", "the library panicked: " + first)
             elif c["oa"] == "E":
                 if o["built"]:
@@ -309,7 +308,8 @@ class Sem:
                 c["m"], root, len(paths), c["oa"], ",".join(sorted(set(meta["single"][i - 1] or "ok" for i in c["h"]))))
             ctx.count(1, cls_s)
             for cls, observed, expected, what in viol:
-                if ctx.violation(cls, {"root": root, "black": c["m"] == "B", "paths": paths}, observed, expected, what):
+                if ctx.violation(cls, {"k": "sem", "root": root, "black": c["m"] == "B", "paths": paths, "tlc": c,
+                                       "meta": meta, "maxlen": self.spec["maxlen"]}, observed, expected, what):
                     nviol += 1
             if len(paths) == self.spec["maxlen"] and c["oa"] == "ok" and not viol:
                 ctx.sample({"root": root, "mode": c["m"], "paths": paths, "json": o.get("json"),
@@ -322,7 +322,7 @@ class Sem:
                 b = next(x for x in lst if x[1] != a[1])
                 feat = "struct-star" if any(".*" in p for p in a[0] + b[0]) else "plain"
                 if ctx.violation({"check": "C14.json", "kind": "text-depends-on-order", "mode": m, "root": root, "feature": feat},
-                                 {"root": root, "black": m == "B", "paths": a[0], "paths2": b[0]},
+                                 {"k": "sem2", "root": root, "black": m == "B", "paths": a[0], "paths2": b[0], "meta": meta},
                                  {"json": a[1], "json2": b[1]}, "equal text for equal path sets",
                                  "two lists naming the same path set marshal to different JSON"):
                     nviol += 1
@@ -449,10 +449,19 @@ def json_class(mut):
 
 
 def stage_class(stage):
+    """NewFieldMask/white -> NewFieldMask; query/white:PathInMask($.*) -> PathInMask; UnmarshalJSON+query -> query"""
+    if ":" in stage:
+        return stage.split(":", 1)[1].split("(")[0]
     s = stage.split("/")[0].split("#")[0]
-    if ":" in s:
-        s = s.split(":", 1)[1].split("(")[0]
-    return s.split("+")[-1] if "+" in s else s
+    return s.split("+")[-1]
+
+
+def confirm_hang(ctx, harness, qfile, row):
+    """re-run one input alone: a hang must reproduce to count"""
+    casef, obsf = ctx.path("hang-case.ndjson"), ctx.path("hang-obs.ndjson")
+    vlib.write_ndjson(casef, [row])
+    ctx.run([harness, "mask", casef, obsf], timeout=600, env={"VERIF_MASK_Q": qfile})
+    return bool(vlib.read_ndjson(obsf)[0].get("hang"))
 
 
 def robust(ctx, harness, qfile):
@@ -506,7 +515,9 @@ def robust(ctx, harness, qfile):
     for (row, cls, mut), o in zip(allrows, obs):
         ctx.count(1, "%s:%s%s" % (cls["input_kind"], cls["mutation"], ("/" + cls["under"]) if "under" in cls else ""))
         accepted[(row["k"], bool(o.get("accept")))] += 1
-        if o.get("hang"):
+        if o.get("hang") and not confirm_hang(ctx, harness, qfile, row):
+            ctx.notes.append("a watchdog timeout did not reproduce when the input was run alone: " + row["hex"][:80])
+        elif o.get("hang"):
             cl = dict(cls)
             cl["stage"] = stage_class(o["stage"])
             cl["outcome"] = "hang"
@@ -514,7 +525,7 @@ def robust(ctx, harness, qfile):
             if ctx.violation(cl, {"k": row["k"], "root": row.get("root"), "hex": row["hex"], "input": raw[:200].decode("latin-1"),
                                   "mut": mut},
                              {"hang": True, "stage": o["stage"]}, "the call returns (a mask or an error)",
-                             "%s input %r: %s does not return (20 s watchdog)" % (cls["input_kind"], raw[:80], o["stage"])):
+                             "%s input %r: %s does not return (45 s watchdog, twice)" % (cls["input_kind"], raw[:80], o["stage"])):
                 nviol += 1
         elif o.get("panic"):
             first = o["panic"].split("\n")[0]
@@ -566,10 +577,12 @@ def probe_revision(ctx, harness):
     qf = ctx.path("q-probe.json")
     with open(qf, "w") as fh:
         json.dump({"N": {"walks": [[["f", -1]], [["f", 1]]], "pims": []},
-                   "R": {"walks": [[["f", 2], ["f", 1]], [["f", 2], ["f", 2]]], "pims": []}}, fh)
+                   "R": {"walks": [[["f", 2], ["f", 1]], [["f", 2], ["f", 2]]], "pims": ["$.x", "$.*"]}}, fh)
     casef, obsf = ctx.path("probe.ndjson"), ctx.path("probe-obs.ndjson")
     vlib.write_ndjson(casef, [{"k": "sem", "root": "N", "black": False, "paths": ["$.neg"]},
-                              {"k": "sem", "root": "R", "black": True, "paths": ["$.s.a", "$.s"]}])
+                              {"k": "sem", "root": "R", "black": True, "paths": ["$.s.a", "$.s"]},
+                              {"k": "sem", "root": "R", "black": False, "paths": ["$"]},
+                              {"k": "sem", "root": "R", "black": False, "paths": []}])
     ctx.run([harness, "mask", casef, obsf], env={"VERIF_MASK_Q": qf})
     o = vlib.read_ndjson(obsf)
     fixes = set()
@@ -577,6 +590,10 @@ def probe_revision(ctx, harness):
         fixes.add("negid")
     if o[1].get("obs") and o[1]["obs"]["walks"][0] == "n":
         fixes.add("prefixdrop")
+    if not o[2].get("panic"):
+        fixes.add("getpathfix")
+    if o[3].get("obs") and o[3]["obs"]["pims"][:1] == "1":
+        fixes.add("existfix")
     vlib.log("layer B transcribes the revision with fixes: %s" % (sorted(fixes) or "none"))
     return fixes
 
@@ -616,4 +633,26 @@ def run(ctx, args):
 
 
 def replay(ctx, harness, rp):
-    raise vlib.MachineryError("replay not implemented yet")
+    """re-run one recorded case against the real code and judge it again (the prescription of layer A is in the file)"""
+    case = rp["case"]
+    if case["k"] in ("path", "json"):
+        qf = ctx.path("q-replay.json")
+        with open(qf, "w") as fh:
+            json.dump({"R": {"walks": [[["f", 1]], [["f", 2], ["f", 1]], [["f", 3], ["i", 0], ["f", 1]]], "pims": ["$.x", "$.s.a"]}}, fh)
+        casef, obsf = ctx.path("rcases.ndjson"), ctx.path("robs.ndjson")
+        vlib.write_ndjson(casef, [{"k": case["k"], "root": case.get("root") or "R", "hex": case["hex"]}])
+        ctx.run([harness, "mask", casef, obsf], env={"VERIF_MASK_Q": qf})
+        o = vlib.read_ndjson(obsf)[0]
+        ctx.count(1, "replay")
+        if o.get("panic") or o.get("hang"):
+            ctx.violation(rp["class"], case, o, "an error or a mask", "replayed input still makes the library panic / hang")
+        return ctx.finish("replay of one robustness input")
+    meta = case["meta"]
+    if case["k"] == "sem2":
+        raise vlib.MachineryError("replay of a text-depends-on-order pair: run the two lists with --tier quick")
+    s = Sem(ctx, harness, dict(root=meta["root"], maxlen=case.get("maxlen", 0)), "replay")
+    s.meta = meta
+    s.cases = [case["tlc"]]
+    s.replay()
+    s.judge()
+    return ctx.finish("replay of one path list")
